@@ -533,8 +533,9 @@ pub fn gen(seed: u64, thorough: bool) -> Vec<String> {
             push(&mut out, api, &sh, l.4, l.5, false, par, "mt", cancel.into(), &mut k, &mut rng);
         }
     }
+    let structured = std::mem::take(&mut out);
     // PRNG: parallel BC encodes with every pool size / order, random cancellation points
-    let n_rand = if thorough { 30_000 } else { 700 };
+    let n_rand = if thorough { 30_000 } else { 6_000 };
     let bc_shapes: Vec<&(&str, &str, &str, &str)> = SHAPES.iter().filter(|s| is_bc(s.0)).collect();
     for _ in 0..n_rand {
         let sh = **rng.pick(&bc_shapes);
@@ -558,6 +559,18 @@ pub fn gen(seed: u64, thorough: bool) -> Vec<String> {
             _ => format!("k{}", rng.below(14)),
         };
         push(&mut out, api, &sh, w as u32, h as u32, mips, true, rep, cancel, &mut k, &mut rng);
+    }
+    // interleave the two lists so that check.py's chunks balance
+    let random = out;
+    let mut out = Vec::with_capacity(structured.len() + random.len());
+    let (mut a, mut b) = (structured.into_iter().peekable(), random.into_iter().peekable());
+    while a.peek().is_some() || b.peek().is_some() {
+        if let Some(x) = a.next() {
+            out.push(x);
+        }
+        if let Some(x) = b.next() {
+            out.push(x);
+        }
     }
     out
 }
